@@ -197,7 +197,7 @@ impl<const N: u32> PxE1<{ N }> {
 
                 //n+1 frac bit is 1. Need to check if another bit is 1 too if not round to even
                 if bit_n_plus_one {
-                    if ((0x_FFFF_FFFF_FFFF_FFFF_u64 >> N) & frac64) != 0 {
+                    if ((0x_FFFF_FFFF_FFFF_FFFF_u64 >> (N + 1)) & frac64) != 0 {
                         bits_more = true;
                     }
                     u_z += (((u_z >> (32 - N)) & 1) | (bits_more as u32)) << (32 - N);
@@ -320,7 +320,7 @@ impl<const N: u32> PxE1<{ N }> {
 
                 //n+1 frac bit is 1. Need to check if another bit is 1 too if not round to even
                 if bit_n_plus_one {
-                    if ((0x_FFFF_FFFF_FFFF_FFFF_u64 >> N) & frac64) != 0 {
+                    if ((0x_FFFF_FFFF_FFFF_FFFF_u64 >> (N + 1)) & frac64) != 0 {
                         bits_more = true;
                     }
                     u_z += (((u_z >> (32 - N)) & 1) | (bits_more as u32)) << (32 - N);
